@@ -901,9 +901,12 @@ vbi_xds_demux_feed		(vbi_xds_demux *	xd,
 
 		i = xds_subclass;
 
-		/* MISC subclass 0x4n */
+		/* Subclass 0x4n (MISC class) has buffers of its own
+		   behind those of subclass 0x00 ... 0x17. */
 		if (i >= 0x40)
-			i += 0x10 - 0x40;
+			i += VBI_XDS_MAX_SUBCLASSES - 0x40;
+		else if (i >= VBI_XDS_MAX_SUBCLASSES)
+			i = N_ELEMENTS (xd->subpacket[0]); /* unknown */
 
 		if (xds_class > VBI_XDS_CLASS_MISC
 		    || i >= N_ELEMENTS (xd->subpacket[0])) {
